@@ -19,7 +19,26 @@ LEVEL = "exploration"
 DT_OFFS = ["", "[0]", "[-5:EST]", "[+5.30]", "[-0.30]", "[+0.30]", "[0.30]", "[-0.45]", "[+14]", "[-12]", "[-3.30:NST]", "[9.30]", "[-9.30:Any Name]", "[+05.45]", "[5]", "[-5.00]"]
 
 
-def lexical_forms(c, quick, seed):
+_ENUMS = None
+
+
+def snapshot_tokens(clsname, c):
+    """tokens of this enumerated element per vf/ref_enums.json (the enumerations as declared at the pinned commit, standing
+    in for the specification's), merged with what the class declares now: a token that has silently dropped out of a
+    table (e.g. two string literals joined by a missing comma) must still be read"""
+    global _ENUMS
+    if _ENUMS is None:
+        import json
+        import os
+
+        with open(os.path.join(os.path.dirname(os.path.dirname(os.path.abspath(__file__))), "ref_enums.json")) as f:
+            _ENUMS = json.load(f)
+    snap = _ENUMS.get(f"{clsname}.{c.name}", [])
+    declared = [str(x) for x in c.params]
+    return snap, [t for t in snap if t not in declared]
+
+
+def lexical_forms(c, quick, seed, clsname=None):
     """[(label, text)] for element child c - every text must be valid for c per the reference rules"""
     t = c.typ
     out = []
@@ -54,10 +73,11 @@ def lexical_forms(c, quick, seed):
                 out.append(("limit-with-entities", "&amp;" + "x" * (n - 2) + "&lt;"))
     elif t == "OneOf":
         toks = [str(x) for x in c.params]
+        snap, dropped = snapshot_tokens(clsname, c) if clsname else ([], [])
         if quick:
             idx = sorted(set([0, len(toks) - 1] + list(range(seed % 7, len(toks), 7))))
             toks = [toks[i] for i in idx]
-        out = [(tk, tk) for tk in toks]
+        out = [(tk, tk) for tk in toks] + [("dropped-token:" + tk, tk) for tk in dropped]
     elif t == "DateTime":
         out = [("date", "20240229"), ("datetime", "20231231235959"), ("datetime-ms", "19991231235959.999")]
         for o in DT_OFFS[1:]:
@@ -127,6 +147,8 @@ def lexclass(c, label):
         return f"{t}:{label}"
     if t in ("String", "NagString"):
         return f"String:{'entity' if '&' in label else 'limit' if label.startswith('limit') else 'plain'}"
+    if t == "OneOf" and label.startswith("dropped-token:"):
+        return "OneOf:token-of-the-pinned-tables-no-longer-read"
     if t == "Decimal":
         return "Decimal:" + ("comma" if "," in label else "plain")
     if t == "Integer":
@@ -148,7 +170,7 @@ def work(chunk):
             else:
                 idx = next(i for i, m in enumerate(term[2]) if not S._isterm(m))
                 path = (("#", idx),)
-            for label, text in lexical_forms(c, quick, seed):
+            for label, text in lexical_forms(c, quick, seed, clsname):
                 try:
                     R.read_value(c.typ, c.params, text)
                 except R.RefValueError as e:
@@ -199,7 +221,8 @@ def run(ctx):
         "classes": tally.counts.get("classes", 0),
         "exhaustive": True,
     }
-    return {"tally": tally, "coverage": cov, "assumptions": ["documents are rendered by vf.ref_sgml/ref_header, not by the library; reference type rules trusted (self-checked against the writer)"]}
+    return {"tally": tally, "coverage": cov, "assumptions": ["documents are rendered by vf.ref_sgml/ref_header, not by the library; reference type rules trusted (self-checked against the writer)",
+        "vf/ref_enums.json (token tables of the pinned tree) stands in for the specification's enumerations: every token in it must still be read; tokens added since are not objected to"]}
 
 
 def replay(ctx, case):
